@@ -31,6 +31,36 @@ func init() {
 		Run: runCallOrder})
 }
 
+// returnedErr: the variable through which fn returns its error: the named result if there is one, else the local error
+// variable that a return statement of fn (outside literals) names.
+func returnedErr(fn *an.Func) types.Object {
+	if o := namedResult(fn, len(resultNames(fn))-1); o != nil && len(resultNames(fn)) > 0 {
+		if types.Identical(o.Type(), types.Universe.Lookup("error").Type()) {
+			return o
+		}
+	}
+	if o := namedResult(fn, 0); o != nil {
+		return o
+	}
+	info := fn.Pkg.Info
+	errT := types.Universe.Lookup("error").Type()
+	var out types.Object
+	ast.Inspect(fn.Body(), func(m ast.Node) bool {
+		if _, isLit := m.(*ast.FuncLit); isLit {
+			return false
+		}
+		if rs, ok := m.(*ast.ReturnStmt); ok && len(rs.Results) >= 1 && out == nil {
+			if o := an.ObjOf(info, rs.Results[len(rs.Results)-1]); o != nil {
+				if v, isVar := o.(*types.Var); isVar && types.Identical(v.Type(), errT) {
+					out = o
+				}
+			}
+		}
+		return true
+	})
+	return out
+}
+
 func namedResult(fn *an.Func, idx int) types.Object {
 	res := fn.Type().Results
 	if res == nil {
@@ -98,7 +128,19 @@ func checkJoin(c *core.Ctx, g *an.Graph, info *types.Info, key string, callAtom 
 		c.Bad(key, callAtom.Pos(), "the channel returned by the resource is not kept: an asynchronous step would never be waited for")
 		return
 	}
-	conds := g.CondAtoms(func(ex ast.Expr) bool { return isNeqNil(info, ex, ch) })
+	// tests of the channel against nil, in either spelling (`ch != nil {collect}` or `ch == nil {continue}`)
+	nonNilSide := map[ast.Node]bool{}
+	var conds []ast.Node
+	for _, blk := range g.CFG.Blocks {
+		cd, _ := g.Cond(blk)
+		if cd == nil {
+			continue
+		}
+		if isT, nn := nilTestOn(g, info, cd, func(x ast.Expr) bool { return an.ObjOf(info, x) == ch }); isT {
+			conds = append(conds, cd)
+			nonNilSide[cd] = nn
+		}
+	}
 	var slice types.Object
 	var appendAtom, cond ast.Node
 	for _, a := range g.FindAtoms(func(a ast.Node) bool {
@@ -121,7 +163,7 @@ func checkJoin(c *core.Ctx, g *an.Graph, info *types.Info, key string, callAtom 
 		return false
 	}) {
 		for _, cd := range conds {
-			if g.Dominates(callAtom, cd) && g.GuardedBy(a, cd, true) {
+			if g.Dominates(callAtom, cd) && g.GuardedBy(a, cd, nonNilSide[cd]) {
 				appendAtom, cond = a, cd
 				slice = an.ObjOf(info, a.(*ast.AssignStmt).Lhs[0])
 			}
@@ -132,7 +174,7 @@ func checkJoin(c *core.Ctx, g *an.Graph, info *types.Info, key string, callAtom 
 		return
 	}
 	// every path of the non-nil branch collects it before the next call / the exit
-	skip := g.Search(an.Query{From: cond, Edges: g.Branch(cond, true), ToExit: true,
+	skip := g.Search(an.Query{From: cond, Edges: g.Branch(cond, nonNilSide[cond]), ToExit: true,
 		Target: func(a ast.Node) bool { return a == callAtom },
 		Avoid:  func(a ast.Node) bool { return a == appendAtom }})
 	if skip.Found {
@@ -289,7 +331,24 @@ func runCSOrder(c *core.Ctx) {
 		info := fn.Pkg.Info
 		errVar := namedResult(fn, 0)
 		if errVar == nil {
-			c.Lost("distsys.MPCalContext.commit:err", "named error result not found")
+			// no named result: the local error variable that commit() returns
+			errT := types.Universe.Lookup("error").Type()
+			ast.Inspect(fn.Body(), func(m ast.Node) bool {
+				if _, isLit := m.(*ast.FuncLit); isLit {
+					return false
+				}
+				if rs, ok := m.(*ast.ReturnStmt); ok && len(rs.Results) == 1 && errVar == nil {
+					if o := an.ObjOf(info, rs.Results[0]); o != nil {
+						if v, isVar := o.(*types.Var); isVar && types.Identical(v.Type(), errT) {
+							errVar = o
+						}
+					}
+				}
+				return true
+			})
+		}
+		if errVar == nil {
+			c.Lost("distsys.MPCalContext.commit:err", "the error variable commit() returns was not found")
 		} else {
 			lc := func(m string) []ast.Node {
 				return g.FindAtoms(func(a ast.Node) bool {
@@ -933,7 +992,7 @@ func runKindStack(c *core.Ctx) {
 			if an.IsMethodNamed(f, an.PkgDistsys, "ArchetypeInterface", "Write") && len(call.Args) == 3 && handles[an.ObjOf(info, call.Args[0])] {
 				n++
 				key := fmt.Sprintf("ArchetypeInterface.%s:write(.stack)", name)
-				vc, ok := an.Unparen(call.Args[2]).(*ast.CallExpr)
+				vc, ok := an.Unparen(an.ResolveLocal(info, fn.Body(), call.Args[2])).(*ast.CallExpr)
 				vf := (*types.Func)(nil)
 				if ok {
 					vf = an.CalleeFunc(info, vc)
@@ -973,12 +1032,36 @@ func runCallOrder(c *core.Ctx) {
 			returnPC = info.Defs[ps[1].Names[0]]
 		}
 		// the loop over proc.StateVars
-		var loop *ast.RangeStmt
+		// (a range statement, or an index loop bounded by len(proc.StateVars))
+		type svLoop struct {
+			stmt ast.Stmt
+			Body *ast.BlockStmt
+			Key  ast.Expr
+			kind cfg.BlockKind
+		}
+		var loop *svLoop
 		procT := e.Ix.LookupType(an.PkgDistsys, "MPCalProc")
 		sv := an.Field(procT, "StateVars")
 		ast.Inspect(fn.Body(), func(m ast.Node) bool {
-			if rs, ok := m.(*ast.RangeStmt); ok && sv != nil && an.SelectedField(info, rs.X) == sv {
-				loop = rs
+			switch x := m.(type) {
+			case *ast.RangeStmt:
+				if sv != nil && an.SelectedField(info, x.X) == sv {
+					loop = &svLoop{stmt: x, Body: x.Body, Key: x.Key, kind: cfg.KindRangeBody}
+				}
+			case *ast.ForStmt:
+				if sv == nil || x.Cond == nil || x.Init == nil {
+					return true
+				}
+				bounded := false
+				ast.Inspect(x.Cond, func(k ast.Node) bool {
+					if cl, ok := k.(*ast.CallExpr); ok && an.IsBuiltin(info, cl, "len") && len(cl.Args) == 1 && an.SelectedField(info, cl.Args[0]) == sv {
+						bounded = true
+					}
+					return true
+				})
+				if as, ok := x.Init.(*ast.AssignStmt); ok && bounded && len(as.Lhs) == 1 {
+					loop = &svLoop{stmt: x, Body: x.Body, Key: as.Lhs[0], kind: cfg.KindForBody}
+				}
 			}
 			return true
 		})
@@ -996,7 +1079,7 @@ func runCallOrder(c *core.Ctx) {
 				return true
 			})
 			if len(reads) == 0 || len(writes) == 0 {
-				c.Bad("Call:save-and-bind", loop.Pos(), "the loop over the callee's state variables does not both Read (save) and Write (bind) each variable")
+				c.Bad("Call:save-and-bind", loop.stmt.Pos(), "the loop over the callee's state variables does not both Read (save) and Write (bind) each variable")
 			}
 			for i, w := range writes {
 				wc := w.(*ast.CallExpr)
@@ -1024,6 +1107,7 @@ func runCallOrder(c *core.Ctx) {
 						continue
 					}
 					args := an.ObjOf(info, ix.X)
+					_ = args
 					guarded := false
 					for _, blk := range g.CFG.Blocks {
 						cd, _ := g.Cond(blk)
@@ -1046,7 +1130,7 @@ func runCallOrder(c *core.Ctx) {
 							continue
 						}
 						isLen := func(x ast.Expr) bool {
-							cl, ok := an.Unparen(x).(*ast.CallExpr)
+							cl, ok := an.Unparen(an.ResolveLocal(info, fn.Body(), x)).(*ast.CallExpr)
 							return ok && an.IsBuiltin(info, cl, "len") && len(cl.Args) == 1 && an.ObjOf(info, cl.Args[0]) == args
 						}
 						isKey := func(x ast.Expr) bool { return an.ObjOf(info, x) == keyObj }
@@ -1087,10 +1171,10 @@ func runCallOrder(c *core.Ctx) {
 				}
 				return true
 			})
-			c.Check(saved, "Call:frame-holds-saved-values", loop.Pos(), "each saved value is stored in the frame", "the saved values are not stored in the frame record")
+			c.Check(saved, "Call:frame-holds-saved-values", loop.stmt.Pos(), "each saved value is stored in the frame", "the saved values are not stored in the frame record")
 			// ... for every state variable: each iteration that goes on to the next variable has read the variable and
 			// put the value into the frame (no early `continue` for locals beyond the arguments)
-			if bb := g.BlockOfStmt(loop, cfg.KindRangeBody); bb != nil {
+			if bb := g.BlockOfStmt(loop.stmt, loop.kind); bb != nil {
 				isSave := func(a ast.Node) bool {
 					call, ok := a.(*ast.CallExpr)
 					if !ok {
@@ -1112,7 +1196,7 @@ func runCallOrder(c *core.Ctx) {
 					return false
 				}
 				c.Check(g.PassesWithinUnlessExit(bb, loop.Body.Pos(), loop.Body.End(), isRead) && g.PassesWithinUnlessExit(bb, loop.Body.Pos(), loop.Body.End(), isSave),
-					"Call:saves-every-state-variable", loop.Pos(), "every iteration reads the state variable and stores it in the frame",
+					"Call:saves-every-state-variable", loop.stmt.Pos(), "every iteration reads the state variable and stores it in the frame",
 					"some iteration over the callee's state variables continues without saving the variable into the frame: locals (state variables beyond the arguments) of an outer activation are clobbered by a recursive call and never restored by Return")
 			} else {
 				c.Lost("Call:loop-body", "CFG block of the state-variable loop body not found")
@@ -1170,7 +1254,7 @@ func runCallOrder(c *core.Ctx) {
 				c.Check(!backToLoop.Found, "Call:push-after-saving-all", push.Pos(), "the frame is pushed after every variable was saved", "the frame is pushed before all state variables were saved")
 				pc := push.(*ast.CallExpr)
 				headPush := false
-				if vc, ok := an.Unparen(pc.Args[2]).(*ast.CallExpr); ok && an.IsFuncNamed(an.CalleeFunc(info, vc), an.PkgTLA, "ModuleOSymbol") && len(vc.Args) == 2 {
+				if vc, ok := an.Unparen(an.ResolveLocal(info, fn.Body(), pc.Args[2])).(*ast.CallExpr); ok && an.IsFuncNamed(an.CalleeFunc(info, vc), an.PkgTLA, "ModuleOSymbol") && len(vc.Args) == 2 {
 					// new frame first, old stack second
 					_, values := stackVars(fn)
 					if values[an.ObjOf(info, vc.Args[1])] {
@@ -1214,7 +1298,14 @@ func runCallOrder(c *core.Ctx) {
 		// restore loop: a for loop over an iterator whose body Writes (handle from name, value)
 		ast.Inspect(fn.Body(), func(m ast.Node) bool {
 			fs, ok := m.(*ast.ForStmt)
-			if !ok || fs.Cond == nil || len(iteratorDoneCalls(info, fs.Cond)) == 0 {
+			if !ok {
+				return true
+			}
+			// `for !it.Done() { ... }` or `for { if it.Done() { break }; ... }`
+			if fs.Cond != nil && len(iteratorDoneCalls(info, fs.Cond)) == 0 {
+				return true
+			}
+			if fs.Cond == nil && len(iteratorDoneCalls(info, fs.Body)) == 0 {
 				return true
 			}
 			ast.Inspect(fs.Body, func(k ast.Node) bool {
